@@ -7,6 +7,7 @@ on the compiled helpers (recording client, gqlparser's variable coercion).
 import Genq.Model.CodecSkel
 import Genq.Extracted.Codec
 import Genq.Model.Vars
+import Genq.Model.CodecIn
 namespace Genq.Vars
 
 /-- **C04_keys_subset** — the variables object has keys only for declared variables, each at most
@@ -73,3 +74,40 @@ namespace Genq
 theorem C04_marshal_template_tie :
     Extracted.marshalTmpl = CodecSkel.marshalTmpl ∧ Extracted.flattenedFieldsSkeleton = CodecSkel.flattenedFieldsSkeleton := ⟨rfl, rfl⟩
 end Genq
+
+/-! ### the values: the model of the generated marshaling of variables (Model/CodecIn.lean) -/
+namespace Genq.Codec
+open Genq.Types (J)
+
+/-- **C04_field_omitted_iff_empty_model** — a variable or input-object field contributes its key to the object
+    sent EXCEPT when it is tagged omitempty and its value is empty in the encoding/json sense (for a custom-marshaled
+    field: judged on the premarshal struct); then it contributes nothing.  Nothing else is ever omitted. -/
+theorem C04_field_omitted_iff_empty_model (tag : String) (emb : Bool) (t : Ty) (rest : Flds) (v : Val) (vs : List Val) :
+    encInFields (.cons tag emb t rest) (v :: vs) =
+      (if (splitTag tag).2 && (if special t then isEmptySpecial t v else isEmptyPlain t v) then []
+       else [((splitTag tag).1, if special t then encInSpecial t v else encIn t v)]) ++ encInFields rest vs := by
+  simp only [encInFields]
+  by_cases hs : special t = true <;> simp [hs]
+
+/-- a field NOT marked omitempty is always sent, whatever its value -/
+theorem C04_unmarked_field_always_sent_model (tag : String) (emb : Bool) (t : Ty) (rest : Flds) (v : Val) (vs : List Val)
+    (h : (splitTag tag).2 = false) :
+    ∃ j, encInFields (.cons tag emb t rest) (v :: vs) = ((splitTag tag).1, j) :: encInFields rest vs := by
+  rw [C04_field_omitted_iff_empty_model, h]
+  simp
+
+/-- nil pointers are sent as null; custom marshalers are applied to every element at every list depth; and the
+    known finding F-04a is visible in the model: a nil list of custom-marshaled elements is sent as [] -/
+theorem C04_encoding_cases_model (t : Ty) (vs : List Val) :
+    encIn (.ptr t) .nilPtr = .null ∧
+    encInSpecial (.slice (.slice t)) (.slice [.slice vs]) = .arr [.arr (vs.map (fun v => encInSpecial t v))] ∧
+    encInSpecial (.slice t) .nilSlice = .arr [] := by
+  refine ⟨rfl, ?_, rfl⟩
+  simp [encInSpecial]
+
+-- non-vacuity: `$tag: String` omitempty with "", `$n: Int!` with 0 (not omitempty), `$at: [Stamp!]` omitempty nil
+example : encVars (.cons "tag,omitempty" false (.leaf .str) (.cons "n" false (.leaf .int)
+      (.cons "at,omitempty" false (.slice (.leaf .custom)) .nil))) [.str "", .num "0", .null]
+    = .ok (.obj [("n", .num "0")]) := rfl
+
+end Genq.Codec
